@@ -40,7 +40,10 @@ class BatcherRoles:
         self.u = u
         self.p = p
         self.cls = None
-        for c in u.classes():
+        # (after a module split the class may live in another module of the package: asyncio.py first, then the rest)
+        for u, c in [(uu, c_) for uu in [p.unit(FILE)] + [x for x in p.units.values() if x is not p.unit(FILE)] for c_ in uu.classes()]:
+            if self.cls is not None and u is not self.u:
+                break
             init = u.scopes.get(f'{c.qualname}.__init__')
             if init is None:
                 continue
@@ -54,9 +57,11 @@ class BatcherRoles:
                     isinstance(x, ast.Attribute) and x.attr == 'create_future' for x in ast.walk(call.node)):
                 self.cls = c
                 self.init = init
+                self.u = u
         if self.cls is None:
             raise AnalysisError('batcher class (asyncio queue in __init__, futures created in async __call__) not found')
         cls = self.cls
+        u = self.u
         r = Resolver(self.init)
         self.attr_ctor: Dict[str, ast.expr] = {}
         for n in own_nodes(self.init.node):
@@ -69,7 +74,7 @@ class BatcherRoles:
         self.sem = next((a for a, v in self.attr_ctor.items() if kind(v) == 'asyncio.Semaphore'), None)
         queues = [a for a, v in self.attr_ctor.items() if (kind(v) or '').startswith('asyncio.') and (kind(v) or '').endswith('Queue')]
         self.workq = queues[0] if queues else None
-        self.call = p.func(FILE, f'{cls.qualname}.__call__')
+        self.call = u.scopes[f'{cls.qualname}.__call__']
         gc = build(self.call, p, inline_methods=True)
         self.gcall = gc
         self._declare_nonnull = lambda: None
@@ -204,9 +209,9 @@ class BatcherRoles:
         missing = [k for k in ('workq', 'ret', 'process', 'assemble', 'dispatch') if getattr(self, k) is None]
         if missing:
             raise AnalysisError(f'batcher roles not found: {missing}')
-        self.gproc = build(self.process, p, inline_methods=True)
-        self.gasm = build(self.assemble, p, inline_methods=True)
-        self.gdisp = build(self.dispatch, p, inline_methods=True)
+        self.gproc = build(self.process, p, inline_methods=True, inline_module_helpers=True)
+        self.gasm = build(self.assemble, p, inline_methods=True, inline_module_helpers=True)
+        self.gdisp = build(self.dispatch, p, inline_methods=True, inline_module_helpers=True)
         # in PROCESS: BATCHCALL loop, BATCHFUTS dict
         g = self.gproc
         self.batchcall = next(n for n in g.nodes if n.kind == 'for_iter' and n.meta.get('is_async')
@@ -981,7 +986,7 @@ def c10(ctx: Ctx) -> None:
                   construct=construct_key(r.process.qualname, 'args', v))
     # R3
     calls_func = []
-    for f in [s for s in p.unit(FILE).functions() if s.enclosing_class() is r.cls or (
+    for f in [s for s in r.u.functions() if s.enclosing_class() is r.cls or (
             s.enclosing_function() and s.enclosing_function().enclosing_class() is r.cls)]:
         gg = build(f, p)
         for n in gg.nodes:
@@ -1011,7 +1016,7 @@ def c10(ctx: Ctx) -> None:
               'FIFO queue', 'not a FIFO queue (LifoQueue / PriorityQueue reorder callers)',
               construct=construct_key(r.init.qualname, 'queue kind', qk))
     qmethods = set()
-    for f in p.unit(FILE).functions():
+    for f in r.u.functions():
         if not (f.enclosing_class() is r.cls):
             continue
         gg = build(f, p)
@@ -1413,12 +1418,15 @@ def _chains(ctx: Ctx, p) -> None:
         ctx.undecided('C15-R2', 'cache chain', f'{FILE}:1', str(e))
     # timeout -> BufferAsyncCalls(func, timeout=timeout) -> self.timeout -> wait_for(_, self.timeout)
     but = p.func(FILE, 'buffer_until_timeout')
-    ctor_calls = [x for x in ast.walk(but.node) if isinstance(x, ast.Call) and isinstance(x.func, ast.Name) and x.func.id in u.scopes
-                  and u.scopes[x.func.id].kind == 'class']
+    from ..cfg import resolve_class
+    u = but.unit
+    ctor_calls = [x for x in ast.walk(but.node) if isinstance(x, ast.Call) and isinstance(x.func, ast.Name)
+                  and resolve_class(p, u, x.func.id) is not None]
     ok1 = any(any(k.arg == 'timeout' and isinstance(k.value, ast.Name) and k.value.id == 'timeout' for k in c.keywords) for c in ctor_calls)
-    cls = u.scopes[ctor_calls[0].func.id] if ctor_calls else None
+    cls = resolve_class(p, u, ctor_calls[0].func.id) if ctor_calls else None
     ok2 = ok3 = False
     if cls is not None:
+        u = cls.unit
         init = u.scopes.get(f'{cls.qualname}.__init__')
         for n in own_nodes(init.node):
             if isinstance(n, ast.Assign) and self_attr(n.targets[0]) == 'timeout' and isinstance(n.value, ast.Name) and n.value.id == 'timeout':
